@@ -398,6 +398,11 @@ func racingScenarios(thorough bool) []*h.Scn {
 						bounds = append(bounds, 2)
 					}
 					for _, d := range bounds {
+						// quick tier: one deviation for the concurrent mode, and for {I} in the
+						// back-to-back modes
+						if d == 1 && !thorough && mode != "concurrent" && len(kinds) > 1 {
+							continue
+						}
 						// two deviations where the interruption can race the answer: {I}, {I,N}, {I,I}
 						// issued concurrently, and {I} event-then-answer
 						if d == 2 && (kinds[0] != "I" || mode == "answer-then-event" || (mode == "event-then-answer" && len(kinds) > 1)) {
